@@ -1,0 +1,12 @@
+//go:build verif
+
+package chain
+
+// VerifSetCurrentRound sets the node's current round number, also to a lower one (SetCurrentRound only moves
+// forward): lets a driver place the node in the round of the block it is about to generate or verify
+// (build tag `verif` only; add-only).
+func (c *Chain) VerifSetCurrentRound(r int64) {
+	c.roundsMutex.Lock()
+	defer c.roundsMutex.Unlock()
+	c.setCurrentRound(r)
+}
